@@ -35,6 +35,7 @@ structure TInv (svc : Bool) (s : State) (t : Tid) (th : Thread) : Prop where
   rsrm : th.a.rs = true → th.a.rm = true
   mid : th.a.mid = true → th.a.ht = true
   nc : th.a.nc = true → nameOf s th.w = some th.desc.name
+  sm : th.skip = true → th.a.mid = false
 
 
 /-- some thread flipped `w`'s closed flag and its flags satisfy `p` -/
@@ -65,7 +66,7 @@ theorem inv_init (P : Progs) : Inv P init := by
 
 theorem TInv.frame {svc : Bool} {s s2 : State} {t : Tid} {th : Thread} (h : TInv svc s t th)
     (hw : s2.watchers th.w = s.watchers th.w) (ht : s2.tmu = s.tmu) : TInv svc s2 t th := by
-  refine ⟨h.wf, ?_, ?_, ?_, ?_, h.rsrm, h.mid, ?_⟩
+  refine ⟨h.wf, ?_, ?_, ?_, ?_, h.rsrm, h.mid, ?_, h.sm⟩
   · rw [hw]; exact h.hw
   · rw [ht]; exact h.ht
   · simpa [closedOf, hw] using h.chk
@@ -228,7 +229,7 @@ theorem inv_tmu {P : Progs} {s : State} (h : Inv P s) (x : Option Tid)
   refine ⟨?_, h.clU, h.mtab, h.static, h.routes, h.ownM, h.ownR, h.cover, h.cr, h.kindP, h.kindS, h.fresh⟩
   intro t th h0
   have := h.th t th h0
-  exact ⟨this.wf, this.hw, hx t th h0, this.chk, this.cl, this.rsrm, this.mid, this.nc⟩
+  exact ⟨this.wf, this.hw, hx t th h0, this.chk, this.cl, this.rsrm, this.mid, this.nc, this.sm⟩
 
 theorem inv_closeRet {P : Progs} {s : State} (h : Inv P s) (w : Wid)
     (hw : ClW s w (fun a => a.cleaned P.svc)) : Inv P { s with closeRet := w :: s.closeRet } := by
@@ -256,7 +257,7 @@ theorem inv_mu {P : Progs} {s : State} {w : Wid} {wt : Watcher} (x : Option Tid)
   refine ⟨?_, h.clU, ?_, ?_, ?_, ?_, ?_, h.cover, h.cr, h.kindP, h.kindS, ?_⟩
   · intro t th h0
     have i := h.th t th h0
-    refine ⟨i.wf, ?_, i.ht, ?_, ?_, i.rsrm, i.mid, ?_⟩
+    refine ⟨i.wf, ?_, i.ht, ?_, ?_, i.rsrm, i.mid, ?_, i.sm⟩
     · intro hh
       by_cases e : th.w = w
       · refine ⟨{ wt with mu := x }, by simp [upd, e], ?_⟩
@@ -290,7 +291,7 @@ theorem inv_newWatcher {P : Progs} {s : State} (n : Name) (h : Inv P s) :
   refine ⟨?_, h.clU, ?_, ?_, ?_, ?_, ?_, h.cover, h.cr, h.kindP, h.kindS, ?_⟩
   · intro t th h0
     have i := h.th t th h0
-    refine ⟨i.wf, ?_, i.ht, ?_, ?_, i.rsrm, i.mid, ?_⟩
+    refine ⟨i.wf, ?_, i.ht, ?_, ?_, i.rsrm, i.mid, ?_, i.sm⟩
     · intro hh
       obtain ⟨wt, h1, h2⟩ := i.hw hh
       have : th.w ≠ s.nextW := by intro e; rw [e, hf] at h1; cases h1
@@ -320,7 +321,7 @@ theorem inv_spawn {P : Progs} (hP : P.wf = true) {s : State} {t : Tid} (op : Op)
   refine ⟨?_, ?_, ?_, ?_, ?_, h.ownM, h.ownR, ?_, ?_, h.kindP, h.kindS, h.fresh⟩
   · intro t0 th0 h0
     rcases upd_some_cases h0 with ⟨rfl, rfl⟩ | ⟨ne, h0'⟩
-    · refine ⟨?_, by simp, by simp, by simp, by simp, by simp, by simp, by simp⟩
+    · refine ⟨?_, by simp, by simp, by simp, by simp, by simp, by simp, by simp, by simp⟩
       intro _
       simp only [Progs.wf, Bool.and_eq_true] at hP
       cases op <;> simp [Progs.of, hP]
@@ -347,7 +348,7 @@ theorem inv_cas {P : Progs} {s : State} {t : Tid} {th th' : Thread} {wt : Watche
     (hop : th'.op = th.op) (hwf : th'.skip = false → wfCode P.svc th'.a th'.code = true)
     (a1 : th'.a.cl = true) (a2 : th'.a.chk = false) (a3 : th'.a.rm = false) (a4 : th'.a.rs = false)
     (a5 : th'.a.rr = false) (a6 : th'.a.hw = th.a.hw) (a7 : th'.a.ht = th.a.ht) (a8 : th'.a.mid = th.a.mid)
-    (a9 : th'.a.nc = th.a.nc) (a10 : th'.present = th.present) :
+    (a9 : th'.a.nc = th.a.nc) (a10 : th'.present = th.present) (hsm : th'.skip = true → th'.a.mid = false) :
     Inv P { setThread s t th' with watchers := upd s.watchers th.w (some { wt with closed := true }) } := by
   have hw : th'.w = th.w := by simp [Thread.w, hop]
   have hd : th'.desc = th.desc := by simp [Thread.desc, hop]
@@ -382,7 +383,7 @@ theorem inv_cas {P : Progs} {s : State} {t : Tid} {th th' : Thread} {wt : Watche
   refine ⟨?_, ?_, ?_, ?_, ?_, ?_, ?_, ?_, ?_, h.kindP, h.kindS, ?_⟩
   · intro t0 th0 h0
     rcases upd_some_cases h0 with ⟨rfl, rfl⟩ | ⟨ne, h0'⟩
-    · refine ⟨hwf, ?_, ?_, by simp [a2], ?_, by simp [a4], ?_, ?_⟩
+    · refine ⟨hwf, ?_, ?_, by simp [a2], ?_, by simp [a4], ?_, ?_, hsm⟩
       · intro _; rw [hw]; obtain ⟨wt1, h1, h2⟩ := mu1
         rw [hwt] at h1; cases h1
         exact ⟨{ wt with closed := true }, by simp [upd], h2⟩
@@ -399,7 +400,7 @@ theorem inv_cas {P : Progs} {s : State} {t : Tid} {th th' : Thread} {wt : Watche
           obtain ⟨wt0, h1, h2⟩ := j.hw (j.chk hx).1
           obtain ⟨wt1, h3, h4⟩ := mu1
           rw [e, h3] at h1; cases h1; rw [h4] at h2; cases h2; exact absurd rfl ne
-      refine ⟨j.wf, ?_, j.ht, ?_, ?_, j.rsrm, j.mid, ?_⟩
+      refine ⟨j.wf, ?_, j.ht, ?_, ?_, j.rsrm, j.mid, ?_, j.sm⟩
       · intro hh
         obtain ⟨wt0, h1, h2⟩ := j.hw hh
         by_cases e : th0.w = th.w
@@ -439,5 +440,77 @@ theorem inv_cas {P : Progs} {s : State} {t : Tid} {th th' : Thread} {wt : Watche
     by_cases e : w' = th.w
     · subst e; rw [h.fresh _ hw'] at hwt; cases hwt
     · simpa [setThread, upd, e] using h.fresh w' hw'
+
+
+/-! ### table operations -/
+
+theorem mem_tblAdd {x e : Entry} {m : List Entry} (h : e ∈ tblAdd x m) : e ∈ m ∨ e = x := by
+  unfold tblAdd at h
+  split at h
+  · left; exact (List.mem_filter.1 h).1
+  · split at h
+    · obtain ⟨y, hy, rfl⟩ := List.mem_map.1 h
+      split
+      · right; rfl
+      · left; exact hy
+    · rcases List.mem_append.1 h with h | h
+      · left; exact h
+      · right; simpa using h
+
+theorem svcDelete_some {l : List Svc} {r : Svc → Option Entry} {k : Svc} {e : Entry} :
+    svcDelete l r k = some e ↔ r k = some e ∧ k ∉ l := by
+  induction l generalizing r with
+  | nil => simp [svcDelete]
+  | cons x xs ih =>
+    simp only [svcDelete, ih, List.mem_cons, not_or]
+    by_cases hk : k = x
+    · subst hk; simp [upd]
+    · simp [upd, hk]
+
+theorem svcAdd_some {ss : Bool} {x : Entry} {l : List Svc} {r : Svc → Option Entry} {pres : List Svc}
+    {k : Svc} {e : Entry} (h : (svcAdd ss x l r pres).1 k = some e) :
+    r k = some e ∨ (e = x ∧ k ∈ (svcAdd ss x l r pres).2) := by
+  have mono : ∀ (l : List Svc) (r : Svc → Option Entry) (pres : List Svc) (k : Svc), k ∈ pres → k ∈ (svcAdd ss x l r pres).2 := by
+    intro l
+    induction l with
+    | nil => intro r pres k hk; simpa [svcAdd] using hk
+    | cons y ys ih =>
+      intro r pres k hk
+      simp only [svcAdd]
+      split
+      · exact ih _ _ _ (List.mem_append_left _ hk)
+      · split
+        · exact ih _ _ _ (List.mem_append_left _ hk)
+        · exact ih _ _ _ hk
+  induction l generalizing r pres with
+  | nil => left; simpa [svcAdd] using h
+  | cons y ys ih =>
+    simp only [svcAdd] at h ⊢
+    split at h
+    · rename_i hn
+      rcases ih h with h1 | h1
+      · by_cases hk : k = y
+        · subst hk; simp only [upd_same] at h1; cases h1
+          right; exact ⟨rfl, mono _ _ _ _ (by simp)⟩
+        · left; simpa [upd, hk] using h1
+      · right; exact h1
+    · rename_i old ho
+      by_cases hnm : old.desc.name = x.desc.name
+      · simp only [hnm, if_true] at h ⊢
+        rcases ih h with h1 | h1
+        · by_cases hk : k = y
+          · subst hk
+            cases ss with
+            | false => left; simpa using h1
+            | true =>
+              simp only [if_true, upd_same] at h1; cases h1
+              right; exact ⟨rfl, mono _ _ _ _ (by simp)⟩
+          · left
+            cases ss with
+            | false => simpa using h1
+            | true => simpa [upd, hk] using h1
+        · right; exact h1
+      · simp only [hnm, if_false] at h ⊢
+        exact ih h
 
 end GB.C11
